@@ -363,7 +363,8 @@ def validate(prog, cj, model, shapes, opts: Options, ref_fn=None, pre=None) -> d
         else:
             ref_cmp.append(r)
     stats = equiv.Stats()
-    assumptions = constraints + S.representability_axioms(ins) + jctx.domain + jctx.unwind + octx.unwind + octx.domain
+    base_assumptions = constraints + S.representability_axioms(ins) + jctx.domain + jctx.unwind + octx.unwind + octx.domain
+    assumptions = base_assumptions + jctx.index_domain
     cmp = equiv.compare_outputs(
         onnx_outs,
         ref_cmp,
@@ -396,6 +397,25 @@ def validate(prog, cj, model, shapes, opts: Options, ref_fn=None, pre=None) -> d
         if opts.replay:
             return _replay_candidates(prog, cj, model, shapes, dtypes, pos_names, ins, cmp["candidates"], out, opts)
         return out
+    # phase B: outside the index-in-bounds domain JAX clamps / fills; an exported model that raises
+    # there is loud (accepted), one that silently returns something else is a violation
+    if jctx.index_domain and opts.replay:
+        stB = equiv.Stats()
+        cmpB = equiv.compare_outputs(onnx_outs, ref_cmp, base_assumptions + [z3.Not(z3.And(*jctx.index_domain))], tau=opts.tau, timeout_ms=min(opts.timeout_ms, 3000), max_queries=8, stats=stB, obligations=(), twin=False, max_sat=4)
+        out["phase_b"] = stB.as_dict()
+        for c in cmpB.get("candidates", []):
+            if c.model is None:
+                continue
+            arrays = equiv.model_inputs(c.model, ins)
+            try:
+                differs, info = replay_concrete(prog, cj, model, arrays, pos_names)
+            except Exception:
+                continue
+            if differs and "ort_error" not in info:
+                out["status"] = "violation"
+                out["kind"] = "silent_out_of_bounds_index"
+                out["witness"] = {"what": "index outside the bounds: JAX clamps/fills, the model silently returns something else", **info}
+                return out
     out["status"] = "proved" if cmp["status"] == "proved" else "inconclusive"
     if out["status"] == "proved" and cmp.get("partial"):
         out["status"] = "partial"
